@@ -68,6 +68,17 @@ class Bounded:
         with contextlib.redirect_stdout(io.StringIO()), contextlib.redirect_stderr(io.StringIO()):
             yield
 
+    @contextlib.contextmanager
+    def fresh_dir(self):
+        d = tempfile.mkdtemp(prefix="case-", dir=self.work)
+        prev = os.getcwd()
+        os.chdir(d)
+        try:
+            yield d
+        finally:
+            os.chdir(prev)
+            shutil.rmtree(d, ignore_errors=True)
+
     def fan_out(self, worker, items, procs=16):
         """run worker(self, item) for every item in forked children (each in its own temp cwd); merge cases and failures"""
         import multiprocessing as mp
